@@ -18,31 +18,39 @@ def dispatch (st : DState) (toks : List String) : DState × String :=
       | none => go hs
   go handlers
 
-partial def loop (h : IO.FS.Stream) (out : IO.FS.Stream) (st : DState) (dead : Bool) : IO Unit := do
+partial def loop (h : IO.FS.Stream) (out : IO.FS.Stream) (st : DState) (dead : Bool) (last : String) : IO Unit := do
   let line ← h.getLine
   if line.isEmpty then return ()
   let l := line.trimAscii.toString
   if l.isEmpty || l.startsWith "#" then
-    loop h out st dead
+    loop h out st dead last
   else
     let toks := (l.splitOn " ").filter (· ≠ "")
     match toks with
     | "case" :: _ =>
       out.putStrLn l
-      loop h out { dbg := st.dbg } false
+      loop h out { dbg := st.dbg } false ""
+    | "expect" :: want =>
+      if dead then
+        out.putStrLn "skipped"
+      else
+        -- oracle line: the previous result must be exactly this text
+        let w := " ".intercalate want
+        out.putStrLn (if last == w then "ok" else s!"EXPECT-FAIL want={w} got={last}")
+      loop h out st dead last
     | _ =>
       if dead then
         out.putStrLn "skipped"
-        loop h out st dead
+        loop h out st dead last
       else
         let (st', o) := dispatch st toks
         out.putStrLn o
         -- a panic ends the case on both sides (the Rust value may be half-mutated)
-        loop h out st' (o.startsWith "panic")
+        loop h out st' (o.startsWith "panic") o
 
 def main (args : List String) : IO Unit := do
   let dbg := match args with
     | ["--dbg", "0"] => false
     | _ => true
   let out ← IO.getStdout
-  loop (← IO.getStdin) out { dbg := dbg } false
+  loop (← IO.getStdin) out { dbg := dbg } false ""
